@@ -480,6 +480,14 @@ func (k Keeper) MakeConsumerGenesis(
 		// set the counterparty connection ID
 		counterpartyConnectionId = connectionEnd.Counterparty.ConnectionId
 
+		// the underlying client must not already be bound to another consumer chain
+		if boundConsumerId, found := k.GetClientIdToConsumerId(ctx, clientId); found && boundConsumerId != consumerId {
+			return gen, errorsmod.Wrapf(types.ErrInvalidConsumerClient,
+				"client(%s) of connection(%s) is already used by consumer chain %s",
+				clientId, initializationRecord.ConnectionId, boundConsumerId,
+			)
+		}
+
 		k.SetConsumerClientId(ctx, consumerId, clientId)
 
 		// Set minimum height for equivocation evidence from this consumer chain
